@@ -19,6 +19,12 @@ pub enum FileCase {
     /// generated: n chromosomes (names sort in input order) with 1-3 items each
     WigMany { n: u32, opts: Opts },
     BedMany { n: u32, opts: Opts },
+    /// chromosomes of very different lengths (100 000 / 50 / 7 bases) with data far out on the long
+    /// one: arrangement `arr` (see `uneven_chroms`)
+    WigUneven { arr: u32, opts: Opts },
+    BedUneven { arr: u32, opts: Opts },
+    /// one chromosome, two entries, a supplied autoSql of exactly `len` bytes
+    BedLongSql { len: u32, opts: Opts },
     /// bigwiginfo / bigbedinfo on an encoder-written file (C06 tool part)
     Info(crate::clifam::InfoTool),
     /// `bigbedtobed --zoom` on a file written by the library (C08 tool part)
@@ -91,8 +97,89 @@ pub fn expand(c: &FileCase) -> FileCase {
             autosql: None,
             opts: opts.clone(),
         }),
+        FileCase::WigUneven { arr, opts } => FileCase::Wig(WigCase {
+            chroms: uneven_chroms(*arr)
+                .into_iter()
+                .enumerate()
+                .map(|(ci, (name, len, items))| WChrom {
+                    name,
+                    len,
+                    items: items.into_iter().enumerate().map(|(i, (s, e))| WItem { s, e, vb: (1.0 + ci as f32 * 4.0 + i as f32).to_bits() }).collect(),
+                })
+                .collect(),
+            extra_sizes: vec![],
+            allow_ooo: false,
+            opts: opts.clone(),
+        }),
+        FileCase::BedUneven { arr, opts } => FileCase::Bed(BedCase {
+            chroms: uneven_chroms(*arr)
+                .into_iter()
+                .enumerate()
+                .map(|(ci, (name, len, items))| BChrom {
+                    name,
+                    len,
+                    items: items.into_iter().enumerate().map(|(i, (s, e))| BItem { s, e, rest: format!("u{}_{}", ci, i) }).collect(),
+                })
+                .collect(),
+            extra_sizes: vec![],
+            allow_ooo: false,
+            autosql: None,
+            opts: opts.clone(),
+        }),
+        FileCase::BedLongSql { len, opts } => FileCase::Bed(BedCase {
+            chroms: vec![BChrom {
+                name: "c".into(),
+                len: L,
+                items: vec![BItem { s: 1, e: 4, rest: "n1".into() }, BItem { s: 2, e: 9, rest: "n2".into() }],
+            }],
+            extra_sizes: vec![],
+            allow_ooo: false,
+            autosql: Some(long_schema(*len as usize).0),
+            opts: opts.clone(),
+        }),
         other => other.clone(),
     }
+}
+
+/// Chromosomes whose lengths differ by orders of magnitude, data far out on the long one: a
+/// coordinate of one chromosome compared with a length or coordinate of another shows here and
+/// nowhere in the 16-base alphabets.  Names sort in the given order.
+pub fn uneven_chroms(arr: u32) -> Vec<(String, u32, Vec<(u32, u32)>)> {
+    let long = |n: &str, items: Vec<(u32, u32)>| (n.to_string(), 100_000u32, items);
+    let short = |n: &str| (n.to_string(), 50u32, vec![(5u32, 10u32), (20, 30), (40, 50)]);
+    let tiny = |n: &str| (n.to_string(), 7u32, vec![(0u32, 7u32)]);
+    match arr {
+        0 => vec![long("u1", vec![(10, 12), (30_000, 30_005), (60_000, 60_001)]), short("u2")],
+        1 => vec![short("u1"), long("u2", vec![(10, 12), (30_000, 30_005), (60_000, 60_001)]), tiny("u3")],
+        2 => vec![long("u1", vec![(90_000, 90_001), (99_999, 100_000)]), short("u2"), tiny("u3")],
+        3 => vec![long("u1", vec![(60_000, 60_001)]), short("u2"), long("u3", vec![(0, 1), (99_990, 100_000)])],
+        _ => vec![tiny("u1"), long("u2", vec![(70_000, 70_010), (70_010, 70_020), (80_000, 80_001), (80_001, 80_002)]), short("u3"), tiny("u4")],
+    }
+}
+
+fn uneven_cases(bed: bool) -> Vec<FileCase> {
+    let mut v = vec![];
+    for arr in 0..5u32 {
+        for (ips, bs) in [(1u32, 2u32), (2, 2), (1024, 256)] {
+            for two_pass in [false, true] {
+                for compress in [true, false] {
+                    for src in [SrcKind::Iter, SrcKind::ParallelFile] {
+                        for zoom in [Zoom::Manual(vec![4]), Zoom::AutoDefault] {
+                            let mut o = Opts::base();
+                            o.ips = ips;
+                            o.bs = bs;
+                            o.two_pass = two_pass;
+                            o.compress = compress;
+                            o.src = src;
+                            o.zoom = zoom;
+                            v.push(if bed { FileCase::BedUneven { arr, opts: o } } else { FileCase::WigUneven { arr, opts: o } });
+                        }
+                    }
+                }
+            }
+        }
+    }
+    v
 }
 
 /// many-chromosome files: more chromosomes than the parallel source queues at once (6, 8) and
@@ -152,6 +239,17 @@ fn bed_single(layout: &[(u32, u32)], idx: usize, opts: &Opts) -> BedCase {
 }
 
 pub const CUSTOM_AS: &str = "table custom\n\"A custom table\"\n(\nstring chrom; \"c\"\nuint chromStart; \"s\"\nuint chromEnd; \"e\"\nstring name; \"n\"\n)\n";
+
+/// A four-field schema of exactly `total` bytes (the table comment is padded).
+pub fn long_schema(total: usize) -> (String, usize) {
+    let head = "table longsql\n\"";
+    let tail = "\"\n(\nstring chrom; \"c\"\nuint chromStart; \"s\"\nuint chromEnd; \"e\"\nstring name; \"n\"\n)\n";
+    let pad = total - head.len() - tail.len();
+    let comment: String = (0..pad).map(|i| if i % 61 == 60 { ' ' } else { (b'a' + (i % 26) as u8) as char }).collect();
+    let s = format!("{}{}{}", head, comment, tail);
+    assert_eq!(s.len(), total);
+    (s, 4)
+}
 
 /// autosql choice by palette: None (library default), the generated schema for the palette's
 /// column count, or a custom schema.
@@ -247,7 +345,7 @@ pub fn wig_family(tier: Tier) -> Box<dyn Iterator<Item = FileCase>> {
             big.push(FileCase::WigBig { n, opts: o });
         }
     }
-    Box::new(a.chain(b).chain(big.into_iter()).chain(many_cases(false, quick).into_iter()))
+    Box::new(a.chain(b).chain(big.into_iter()).chain(many_cases(false, quick).into_iter()).chain(uneven_cases(false).into_iter()))
 }
 
 pub fn bed_family(tier: Tier) -> Box<dyn Iterator<Item = FileCase>> {
@@ -285,7 +383,19 @@ pub fn bed_family(tier: Tier) -> Box<dyn Iterator<Item = FileCase>> {
         o.zoom = Zoom::Manual(vec![16384]);
         big.push(FileCase::BedBig { n, opts: o });
     }
-    Box::new(a.chain(b).chain(big.into_iter()).chain(many_cases(true, quick).into_iter()))
+    // supplied schemas longer than the 8 KiB reader / writer buffers
+    let mut longsql = vec![];
+    for len in [8191u32, 8192, 8193, 16385, 70001] {
+        for two_pass in [false, true] {
+            for compress in [true, false] {
+                let mut o = Opts::base();
+                o.two_pass = two_pass;
+                o.compress = compress;
+                longsql.push(FileCase::BedLongSql { len, opts: o });
+            }
+        }
+    }
+    Box::new(a.chain(b).chain(big.into_iter()).chain(many_cases(true, quick).into_iter()).chain(longsql.into_iter()).chain(uneven_cases(true).into_iter()))
 }
 
 /// zoom-focused option list for C07/C08
@@ -1061,6 +1171,13 @@ pub fn oracle_c07(c: &WigCase, bytes: &[u8], all_ranges: bool, out: &mut Outcome
             }
         };
         let levels: Vec<u32> = r.info().zoom_headers.iter().map(|z| z.reduction_level).collect();
+        let mut rc = match BigWigRead::open(Cursor::new(bytes.to_vec())) {
+            Ok(r) => r.cached(),
+            Err(_) => return,
+        };
+        let mut zoom_paths_disagree: Vec<String> = vec![];
+        let mut zoom_path_queries = 0u64;
+        let mut zoom_by_value_queries = 0u64;
         if !levels.is_empty() {
             out.count("files_with_zoom_levels_read", 1);
         }
@@ -1078,6 +1195,27 @@ pub fn oracle_c07(c: &WigCase, bytes: &[u8], all_ranges: bool, out: &mut Outcome
                 for z in it {
                     v.push(zr_from(&z.map_err(|e| format!("{}", e))?));
                 }
+                // the other access paths must give the same answer: the caching reader (one instance
+                // for the whole file, so earlier queries have filled its cache) and the by-value iterator
+                let mut vc = vec![];
+                for z in rc.get_zoom_interval(name, s, e, res).map_err(|e| format!("cached: {}", e))? {
+                    vc.push(zr_from(&z.map_err(|e| format!("cached: {}", e))?));
+                }
+                // by-value iterator (a fresh reader each time): the full span and every 8th range
+                let by_value = s == 0 || (s + 3 * e) % 8 == 0;
+                let mut vm = vec![];
+                if by_value {
+                    let rm = BigWigRead::open(Cursor::new(bytes.to_vec())).map_err(|e| format!("{}", e))?;
+                    for z in rm.get_zoom_interval_move(name, s, e, res).map_err(|e| format!("by-value: {}", e))? {
+                        vm.push(zr_from(&z.map_err(|e| format!("by-value: {}", e))?));
+                    }
+                    zoom_by_value_queries += 1;
+                }
+                let key = |v: &Vec<ZR>| v.iter().map(|z| (z.start, z.end, z.valid, z.min.to_bits(), z.max.to_bits(), z.sum.to_bits(), z.sumsq.to_bits())).collect::<Vec<_>>();
+                if key(&vc) != key(&v) || (by_value && key(&vm) != key(&v)) {
+                    zoom_paths_disagree.push(format!("{} res {} [{},{}): plain {} cached {} by-value {} records", name, res, s, e, v.len(), vc.len(), vm.len()));
+                }
+                zoom_path_queries += 1;
                 Ok(v)
             },
             &c.opts,
@@ -1085,6 +1223,11 @@ pub fn oracle_c07(c: &WigCase, bytes: &[u8], all_ranges: bool, out: &mut Outcome
             &tags,
             out,
         );
+        out.count("zoom_queries_plain_and_cached", zoom_path_queries);
+        out.count("zoom_queries_by_value_iterator", zoom_by_value_queries);
+        for d in zoom_paths_disagree {
+            out.fail("zoom_access_paths_disagree", &tags, d);
+        }
     });
     if let Err(p) = r {
         out.fail("read_panicked", &tags, p);
@@ -1102,6 +1245,13 @@ pub fn oracle_c08(c: &BedCase, bytes: &[u8], all_ranges: bool, out: &mut Outcome
             }
         };
         let levels: Vec<u32> = r.info().zoom_headers.iter().map(|z| z.reduction_level).collect();
+        let mut rc = match BigBedRead::open(Cursor::new(bytes.to_vec())) {
+            Ok(r) => r.cached(),
+            Err(_) => return,
+        };
+        let mut zoom_paths_disagree: Vec<String> = vec![];
+        let mut zoom_path_queries = 0u64;
+        let mut zoom_by_value_queries = 0u64;
         if !levels.is_empty() {
             out.count("files_with_zoom_levels_read", 1);
         }
@@ -1119,6 +1269,27 @@ pub fn oracle_c08(c: &BedCase, bytes: &[u8], all_ranges: bool, out: &mut Outcome
                 for z in it {
                     v.push(zr_from(&z.map_err(|e| format!("{}", e))?));
                 }
+                // the other access paths must give the same answer: the caching reader (one instance
+                // for the whole file, so earlier queries have filled its cache) and the by-value iterator
+                let mut vc = vec![];
+                for z in rc.get_zoom_interval(name, s, e, res).map_err(|e| format!("cached: {}", e))? {
+                    vc.push(zr_from(&z.map_err(|e| format!("cached: {}", e))?));
+                }
+                // by-value iterator (a fresh reader each time): the full span and every 8th range
+                let by_value = s == 0 || (s + 3 * e) % 8 == 0;
+                let mut vm = vec![];
+                if by_value {
+                    let rm = BigBedRead::open(Cursor::new(bytes.to_vec())).map_err(|e| format!("{}", e))?;
+                    for z in rm.get_zoom_interval_move(name, s, e, res).map_err(|e| format!("by-value: {}", e))? {
+                        vm.push(zr_from(&z.map_err(|e| format!("by-value: {}", e))?));
+                    }
+                    zoom_by_value_queries += 1;
+                }
+                let key = |v: &Vec<ZR>| v.iter().map(|z| (z.start, z.end, z.valid, z.min.to_bits(), z.max.to_bits(), z.sum.to_bits(), z.sumsq.to_bits())).collect::<Vec<_>>();
+                if key(&vc) != key(&v) || (by_value && key(&vm) != key(&v)) {
+                    zoom_paths_disagree.push(format!("{} res {} [{},{}): plain {} cached {} by-value {} records", name, res, s, e, v.len(), vc.len(), vm.len()));
+                }
+                zoom_path_queries += 1;
                 Ok(v)
             },
             &c.opts,
@@ -1126,6 +1297,11 @@ pub fn oracle_c08(c: &BedCase, bytes: &[u8], all_ranges: bool, out: &mut Outcome
             &tags,
             out,
         );
+        out.count("zoom_queries_plain_and_cached", zoom_path_queries);
+        out.count("zoom_queries_by_value_iterator", zoom_by_value_queries);
+        for d in zoom_paths_disagree {
+            out.fail("zoom_access_paths_disagree", &tags, d);
+        }
     });
     if let Err(p) = r {
         out.fail("read_panicked", &tags, p);
